@@ -149,11 +149,13 @@ def walNumbers (d : Disk) : List Nat := d.wals.map Prod.fst
 /-- may this operation be applied to this image? (evaluated by the harness on the real stream) -/
 def ok (d : Disk) : Op → Bool
   | .appendWal n b =>
-    -- the log being written is the newest one and will be replayed; the batch is newer than
+    -- the log being written will be replayed and every log with a larger number is still empty
+    -- (a rotation that failed half-way under an I/O error leaves an empty newer file behind while
+    -- writes continue to go to the old log), so the batch is replayed last; the batch is newer than
     -- everything recovery would see; sequence numbers inside a batch are consecutive by construction
     match recover d with
     | some r =>
-      (walNumbers d).contains n && (walNumbers d).all (fun x => decide (x ≤ n)) && decide (r.walNo ≤ n) &&
+      (walNumbers d).contains n && d.wals.all (fun w => decide (w.1 ≤ n) || w.2.isEmpty) && decide (r.walNo ≤ n) &&
       decide (maxSeq r.entries < b.start)
     | none => false
   | .createWal n =>
